@@ -116,10 +116,19 @@ def wellformed_layout(nheaders: int, nblank: int, sp1: int, sp2: int, blocks: in
     pre: 1 <= nheaders <= 2 and 0 <= nblank <= 1
     pre: -1 <= sp1 <= 5 and -1 <= sp2 <= 5
     pre: 1 <= blocks <= 2
-    pre: mask == 131 or mask == 246
+    pre: mask == 131
     post: _
     """
-    return _wellformed(246 if mask == 246 else 131, 1, 2, _conc(nheaders, 1, 2), _conc(nblank, 0, 1), _conc(sp1, -1, 5), _conc(sp2, -1, 5), _conc(blocks, 1, 2))
+    return _wellformed(131, 1, 2, _conc(nheaders, 1, 2), _conc(nblank, 0, 1), _conc(sp1, -1, 5), _conc(sp2, -1, 5), _conc(blocks, 1, 2))
+
+def wellformed_layout2(nheaders: int, nblank: int, sp1: int, sp2: int, blocks: int) -> bool:
+    """
+    pre: 1 <= nheaders <= 2 and 0 <= nblank <= 1
+    pre: -1 <= sp1 <= 5 and -1 <= sp2 <= 5
+    pre: 1 <= blocks <= 2
+    post: _
+    """
+    return _wellformed(246, 1, 2, _conc(nheaders, 1, 2), _conc(nblank, 0, 1), _conc(sp1, -1, 5), _conc(sp2, -1, 5), _conc(blocks, 1, 2))
 
 def wellformed_count(mask: int, dn: int, blocks: int) -> bool:
     """
@@ -250,7 +259,7 @@ wellformed_edges(3, 1); wellformed_layout(1, 0, -1, -1, 1, 131); wellformed_coun
 
 
 def gen_tasks(tier, seed):
-    tasks = [{"fn": "wellformed_edges"}, {"fn": "wellformed_edges_hi"}, {"fn": "wellformed_layout"}, {"fn": "wellformed_count"}, {"fn": "malformed"}, {"fn": "symbolic_edge_line"}]
+    tasks = [{"fn": "wellformed_edges"}, {"fn": "wellformed_edges_hi"}, {"fn": "wellformed_layout"}, {"fn": "wellformed_layout2"}, {"fn": "wellformed_count"}, {"fn": "malformed"}, {"fn": "symbolic_edge_line"}]
     for i, t in enumerate(tasks):
         t["tid"] = i
     return tasks
@@ -268,7 +277,8 @@ def run_task(task):
     res["nontrivial"] += 1
     what = {"wellformed_edges_hi": "as wellformed_edges, upper half of the edge-subset bitmasks (those containing the direct edge 1->12)",
             "wellformed_edges": "symbolic edge-subset bitmask (8 candidate edges incl. self loop and 2-cycle, multi-character node names) and a weight in {0, 2}",
-            "wellformed_layout": "symbolic header count, blank-line count, two independent '#S' selectors (duplicates and sequences whose concatenation collides), number of blocks (1-2, read through read_graphs), on two edge sets",
+            "wellformed_layout2": "as wellformed_layout on the second edge set (mask 246)",
+            "wellformed_layout": "symbolic header count, blank-line count, two independent '#S' selectors (duplicates and sequences whose concatenation collides), number of blocks (1-2, read through read_graphs), on edge set 131",
             "wellformed_count": "symbolic edge subset (16 masks), vertex-count line = number of nodes + d with d symbolic in -1..2 (isolated vertices declared / stale count), 1-2 blocks: stored counts must describe the returned graph",
             "malformed": "symbolic edge subset, corruption kind 0..10 (token counts, non-numeric weight / count, count with trailing text, missing count line, constraint naming an unknown node / a reversed edge / a repeated node), corrupted line index", "symbolic_edge_line": "one fully symbolic edge line of <= 5 characters"}[task["fn"]]
     res["samples"].append({"harness": task["fn"], "symbolic": what, "verdict": v["verdict"], "cpu_s": round(cpu, 1)})
